@@ -30,9 +30,13 @@ Tie to the source (DESIGN.md 4.2, 4.3, 6.10):
     calibrate()) against the Q model inside Coq, |impl - model| <= 1e-12 *
     (|model| + slack), floats passed as exact binary rationals;
   * HISTORIES: one sensor object and a sequence of calls (reads before, between
-    and after calibrations, recalibrations, calibrate(-25) which raises); every
-    call's result against `observations` of the model inside Coq, and the oracle
-    `check_history` states the calibration clause over the object's lifetime.
+    and after calibrations, recalibrations, calibrate(-25) which raises, and
+    ASSIGNMENTS of the public supply-voltage attribute `sensor.voltage_in = x`:
+    the measured 5 V rail tracked while running, a sensor built with 0 / a
+    placeholder and told its supply later, assignments after a calibration);
+    every call's result against `observations` of the model inside Coq, and the
+    oracle `check_history` states the formula clause for the supply voltage the
+    object has NOW and the calibration clause over the object's lifetime.
 """
 import importlib
 import json
@@ -191,8 +195,9 @@ def call_pressure(im, vcc, cal, v):
 
 def call_history(im, vcc, ops):
     """ONE sensor object, the calls `ops` made on it in order; ops: ("read", v) |
-    ("cal", v, p), v = what the analog input reads during the call.
-    -> one observation per call: read: num_result / ("exc", name); cal: ("ok", None) /
+    ("cal", v, p), v = what the analog input reads during the call | ("vcc", x) = the
+    assignment `sensor.voltage_in = x`.
+    -> one observation per call: read: num_result / ("exc", name); cal and vcc: ("ok", None) /
     ("exc", name).  The object lives on after a call that raised."""
     try:
         d = devices(im)
@@ -204,6 +209,10 @@ def call_history(im, vcc, ops):
     try:
         for op in ops:
             try:
+                if op[0] == "vcc":
+                    s.voltage_in = op[1]
+                    obs.append(("ok", None))
+                    continue
                 d.p_sim.setVoltage(op[1])
                 if op[0] == "read":
                     obs.append(num_result(s.pressure))
@@ -719,13 +728,18 @@ Definition impl_reads_keep_state := C18_reads_keep_state gen_consts.
 Definition impl_history_calibrated := C18_history_calibrated gen_consts gen_consts_ok.
 Definition impl_history_calibrated_general := C18_history_calibrated_general gen_consts gen_consts_ok.
 Definition impl_history_uncalibrated := C18_history_uncalibrated gen_consts gen_consts_ok.
+Definition impl_history_supply_tracked := C18_history_supply_tracked gen_consts gen_consts_ok.
+Definition impl_history_supply_total := C18_history_supply_total gen_consts gen_consts_ok.
+Definition impl_history_set_supply := C18_history_set_supply gen_consts.
+Definition impl_history_no_calibrate_state := C18_history_no_calibrate_state gen_consts.
 Definition impl_history_reads_never_raise := C18_history_reads_never_raise gen_consts gen_consts_ok.
 Definition impl_history_calibrate_outcome := C18_history_calibrate_outcome gen_consts gen_consts_ok.
 Definition impl_history_spec := C18_history_spec gen_consts gen_consts_ok.
 Definition impl_sensors := (impl_sonar_scale, impl_sonar_native, impl_pressure_formula, impl_pressure_below_floor,
   impl_pressure_total, impl_calibrated, impl_calibrated_general, impl_floor_positive,
   impl_reads_keep_state, impl_history_calibrated, impl_history_calibrated_general, impl_history_uncalibrated,
-  impl_history_reads_never_raise, impl_history_calibrate_outcome, impl_history_spec).
+  impl_history_reads_never_raise, impl_history_calibrate_outcome, impl_history_spec,
+  impl_history_supply_tracked, impl_history_supply_total, impl_history_set_supply, impl_history_no_calibrate_state).
 Print Assumptions impl_sensors.
 """
 
@@ -819,7 +833,8 @@ def gen_pressure_case_voltage(r):
     return r.choice([0.0, 1e-6, 0.00001, r.uniform(0.0, 5.0), r.uniform(0.0, 5.0), -r.uniform(0, 1)])
 
 
-# ---- histories: one sensor object, a sequence of reads and calibrations
+# ---- histories: one sensor object, a sequence of reads, calibrations and
+# assignments of the public attribute voltage_in
 
 def R(v):
     return ("read", v)
@@ -827,6 +842,11 @@ def R(v):
 
 def C(v, p):
     return ("cal", v, p)
+
+
+def V(x):
+    """sensor.voltage_in = x"""
+    return ("vcc", x)
 
 
 def systematic_histories():
@@ -848,7 +868,44 @@ def systematic_histories():
     out += [(0, [R(2.0), C(1.0, 100), R(1.0)]),                       # first read takes the except path
             (0.0, [R(2.0), R(0.0)]),
             (-5.0, [R(2.0), C(2.0, 10), R(2.0)])]
-    return out
+    return out + systematic_supply_histories()
+
+
+def systematic_supply_histories():
+    """the public attribute voltage_in assigned after construction (uncalibrated sensor
+    tracking the measured supply rail; built with 0 / a placeholder, told later;
+    assignments around a calibration)"""
+    return [
+        (5.0, [V(3.3), R(2.0)]),                                  # assigned before the first read
+        (5.0, [R(2.0), V(3.3), R(2.0)]),                          # ... after a read
+        (None, [R(2.5), V(4.71), R(2.5), R(0.6)]),                # constructor default, the rail sags
+        (5, [R(2.5), V(4.93), R(2.5), V(4.52), R(2.5), V(5.04), R(4.2), V(5), R(2.5)]),   # sags and recovers
+        (0, [R(2.0), V(4.96), R(2.0)]),                           # built with 0: reports 0, then the formula
+        (0.0, [V(5.0), R(2.0), R(1.0)]),
+        (1, [V(5), R(2.0)]),                                      # placeholder
+        (5.0, [V(0), R(2.0), V(5.0), R(2.0)]),                    # set to 0: 0 without raising; and back
+        (3.3, [V(-5.0), R(2.0), V(3.3), R(0.0), R(1e-6)]),
+        (5.0, [C(2.0, 50), V(4.7), R(2.0)]),                      # the calibration in force wins
+        (5.0, [V(4.7), C(2.0, 50), R(2.0), V(0), R(2.0), R(1.0)]),
+        (5.0, [V(4.7), R(2.0), C(2.0, -25), R(2.0)]),             # a failed calibrate keeps the assigned supply
+        (3.3, [R(1.0), V(5.0), R(1.0), C(1.0, 20), V(3.3), R(1.0), C(3.1, 110), V(12.0), R(3.1)]),
+    ]
+
+
+def gen_hist_supply(r):
+    """a value assigned to voltage_in: mostly the measured 5 V rail"""
+    k = r.random()
+    if k < 0.45:
+        return round(r.uniform(4.4, 5.2), r.choice([1, 2, 2, 3]))
+    if k < 0.6:
+        return r.choice([5, 5.0, 3.3, 12.0, 4.85])
+    if k < 0.8:
+        return r.uniform(0.5, 12.0)
+    if k < 0.9:
+        return r.choice([0, 0.0, -0.0])
+    if k < 0.96:
+        return 10.0 ** r.uniform(-4, 3)
+    return -r.uniform(0.5, 12.0)
 
 
 def gen_hist_vcc(r):
@@ -892,6 +949,12 @@ def gen_history(r, maxlen=8):
     """Mostly ordinary use: few distinct voltages (so that reads AT a calibration
     voltage are frequent), reads before / between / after calibrations."""
     vcc = gen_hist_vcc(r)
+    # 40 % of the histories assign voltage_in while the object lives (mostly uncalibrated
+    # sensors: fewer calibrations there); a third of those are built with 0 / a placeholder
+    track = r.random() < 0.4
+    if track and r.random() < 0.33:
+        vcc = r.choice([0, 0.0, 0, 1, 5, 1.0])
+    p_cal = 0.15 if track else 0.4
     pool = [gen_hist_voltage(r) for _ in range(r.choice([1, 2, 2, 3]))]
     volt = lambda: r.choice(pool) if r.random() < 0.85 else gen_hist_voltage(r)
     n = r.randint(2, maxlen)
@@ -900,7 +963,9 @@ def gen_history(r, maxlen=8):
     for i in range(n):
         if i == 0 and shape < 0.45:
             ops.append(R(volt()))                # a reading before anything else
-        elif r.random() < 0.4:
+        elif track and r.random() < 0.35:
+            ops.append(V(gen_hist_supply(r)))    # sensor.voltage_in = ...
+        elif r.random() < p_cal:
             ops.append(C(volt(), gen_hist_p(r)))
         else:
             last = [o for o in ops if o[0] == "cal"]
@@ -910,13 +975,27 @@ def gen_history(r, maxlen=8):
                 ops.append(R(volt()))
     if ops[-1][0] == "cal":                      # a calibration nobody looks at shows nothing
         ops.append(R(ops[-1][1]))
+    elif ops[-1][0] == "vcc":                    # nor does an assignment
+        last = [o for o in ops if o[0] == "cal"]
+        ops.append(R(last[-1][1]) if last and r.random() < 0.6 else R(volt()))
     return vcc, ops
 
 
 def history_features(ops):
     f = set()
     seen_read = seen_cal = False
+    pending = None                               # an assignment of voltage_in not yet followed by a read
     for o in ops:
+        if o[0] == "vcc":
+            f.add("supply-assigned")
+            f.add("supply-assigned-after-a-calibrate-call" if seen_cal else "supply-assigned-before-any-calibrate-call")
+            if seen_read:
+                f.add("supply-assigned-after-a-read")
+            pending = "cal" if seen_cal else "uncal"
+            continue
+        if o[0] == "read" and pending:
+            f.add("read-after-supply-assigned-%s" % ("with-calibrate-before" if pending == "cal" else "never-calibrated"))
+            pending = None
         if o[0] == "cal":
             if seen_read:
                 f.add("calibrate-after-a-read")
@@ -925,6 +1004,7 @@ def history_features(ops):
             if Fraction(o[2]) == -25:
                 f.add("failing-calibrate")
             seen_cal = True
+            pending = "cal" if pending else None
         else:
             seen_read = True
     if not seen_cal:
@@ -1305,24 +1385,36 @@ def dec_ops(ops):
 
 
 def show_ops(ops):
-    return ", ".join("read at %r V" % (o[1],) if o[0] == "read" else "calibrate(%r) at %r V" % (o[2], o[1])
+    return ", ".join("read at %r V" % (o[1],) if o[0] == "read" else
+                     "voltage_in = %r" % (o[1],) if o[0] == "vcc" else
+                     "calibrate(%r) at %r V" % (o[2], o[1])
                      for o in ops)
 
 
 def check_history(im, vcc, ops):
     """The property over the lifetime of ONE sensor object: no read raises (and
-    every result is finite); no calibrate(p >= 0) raises; before any calibration a
-    read at v >= floor with Vcc != 0 is 250*v/Vcc - 25; while the last calibration
-    was calibrate(p >= 0) at voltage vc, every read at vc is p -- whatever came
-    before.  Reads after a calibrate(p < 0) are outside the property (no expectation
-    on their value).  -> None | violation (the first call that breaks it)"""
+    every result is finite); no calibrate(p >= 0) raises; no assignment of the public
+    attribute voltage_in raises; before any calibration a read at v >= floor with Vcc != 0
+    is 250*v/Vcc - 25 for the supply voltage Vcc the object has NOW (the last value
+    assigned to voltage_in, the constructor argument if none: "for every sensor reading
+    and supply voltage"); while the last calibration was calibrate(p >= 0) at voltage vc,
+    every read at vc is p -- whatever came before and whatever voltage_in is set to.
+    Reads after a calibrate(p < 0) are outside the property (no expectation on their
+    value).  -> None | violation (the first call that breaks it)"""
     obs = call_history(im, vcc, ops)
     vcc_q = Fraction(5 if vcc is None else vcc)
+    assigned = False
     state = None                               # None: never calibrated | ("in", vc, p) | ("out",)
     head = "REVAnalogPressureSensor(ch%s)" % ("" if vcc is None else ", %r" % (vcc,))
     for i, (op, o) in enumerate(zip(ops, obs)):
         base = dict(vcc=enc(vcc), ops=enc_ops(ops[:i + 1]), step=i)
         desc = "%s: %s" % (head, show_ops(ops[:i + 1]))
+        if op[0] == "vcc":
+            if o[0] != "ok":
+                return viol("history", "history-supply-assignment-raises",
+                            "%s: the last assignment -> %r" % (desc, o), **base)
+            vcc_q, assigned = Fraction(op[1]), True
+            continue
         if op[0] == "cal":
             p = Fraction(op[2])
             if p >= 0:
@@ -1341,15 +1433,23 @@ def check_history(im, vcc, ops):
             if v >= FLOOR and vcc_q != 0:
                 exp = 250 * v / vcc_q - 25
                 if not rel_close(o[1], exp, slack=25):
-                    return viol("history", "history-formula",
-                                "%s: the last read = %r, expected 250*V/Vcc-25 = %s (never calibrated)" %
-                                (desc, o[1], float(exp)), **base)
+                    return viol("history", "history-formula-supply-assigned" if assigned else "history-formula",
+                                "%s: the last read = %r, expected 250*V/Vcc-25 = %s (never calibrated%s)" %
+                                (desc, o[1], float(exp),
+                                 ", Vcc = %s = the last value assigned to voltage_in" % float(vcc_q) if assigned else ""),
+                                **base)
         elif state[0] == "in" and Fraction(state[1]) == v:
             if not rel_close(o[1], state[2], slack=25):
                 return viol("history", "history-calibration",
                             "%s: the last read = %r, expected the pressure %r of the calibration in force "
                             "(same voltage)" % (desc, o[1], state[2]), **base)
     return None
+
+
+def same_failure(found, orig):
+    """a failure of the formula clause that no longer needs an assignment of voltage_in is
+    a simpler witness of the same kind"""
+    return found == orig or (orig == "history-formula-supply-assigned" and found == "history-formula")
 
 
 def shrink_history(im, w):
@@ -1359,7 +1459,7 @@ def shrink_history(im, w):
 
     def still(vcc_, ops_):
         x = check_history(im, vcc_, ops_)
-        return x if x is not None and x["fingerprint"] == fp else None
+        return x if x is not None and same_failure(x["fingerprint"], fp) else None
 
     best = w
     changed = True
@@ -1377,12 +1477,14 @@ def shrink_history(im, w):
             x = still(5.0, ops)
             if x is not None:
                 best, vcc = x, 5.0
-    for idx, nice in ((1, [2.0, 1.0, 0.0]), (2, [50, 0])):
-        for val in sorted({o[idx] for o in ops if len(o) > idx}, key=repr):
+    # (voltages of reads / calibrations, calibration pressures, values assigned to voltage_in)
+    for kinds, idx, nice in ((("read", "cal"), 1, [2.0, 1.0, 0.0]), (("cal",), 2, [50, 0]), (("vcc",), 1, [3.3, 5.0, 0])):
+        for val in sorted({o[idx] for o in ops if o[0] in kinds}, key=repr):
             for nv in nice:
                 if nv == val:
                     break
-                cand = [tuple(nv if (k == idx and x == val) else x for k, x in enumerate(o)) for o in ops]
+                cand = [tuple(nv if (o[0] in kinds and k == idx and x == val) else x for k, x in enumerate(o))
+                        for o in ops]
                 x = still(vcc, cand)
                 if x is not None:
                     best, ops = x, cand
@@ -1400,7 +1502,7 @@ def oracle_history(im, r, n, first=()):
     w = scan(list(first))
     if w:                                    # a systematic history with the same kind of failure is preferred
         w2 = scan(systematic_histories())
-        return w2 if w2 and w2["fingerprint"] == w["fingerprint"] else shrink_history(im, w)
+        return w2 if w2 and same_failure(w2["fingerprint"], w["fingerprint"]) else shrink_history(im, w)
     w = scan(systematic_histories())
     if w:
         return w
@@ -1789,7 +1891,7 @@ def run(ctx):
     n_sonar = 16000 if thorough else 800       # per driver
     n_press = 30000 if thorough else 1500
     n_forest = 4000 if thorough else 300
-    n_hist = 12000 if thorough else 600
+    n_hist = 16000 if thorough else 800
 
     pairs = [(a, b) for a in range(4) for b in range(4)]
     triples = [(a, b, c) for a in range(4) for b in range(4) for c in range(4)]
@@ -1931,6 +2033,8 @@ def run(ctx):
         for op, o in zip(ops, obs):
             if op[0] == "read":
                 steps.append("HRead %s %s" % (coq_Q(op[1]), coq_obs(o)))
+            elif op[0] == "vcc":
+                steps.append("HSet %s %s" % (coq_Q(op[1]), coq_bool(o[0] == "ok")))
             else:
                 res = "(Some false)" if o[0] == "ok" else "(Some true)" if o == ("exc", "ZeroDivisionError") else "None"
                 steps.append("HCal %s %s %s" % (coq_Q(op[1]), coq_Q(op[2]), res))
@@ -1997,7 +2101,10 @@ def run(ctx):
                 "negative, uniform 0-5) x optional calibrate(p) at the same or another voltage; histories: ONE sensor "
                 "object, 2-8 (thorough 12) calls: reads and calibrate(p) (p >= 0, some < 0, some -25 which raises) "
                 "over 1-3 voltages, 45 % start with a read, reads at the voltage of the calibration in force "
-                "preferred, every call's result compared; forests: 2-12 units, "
+                "preferred; 40 % of the histories also ASSIGN the public attribute voltage_in (35 % of their calls: "
+                "the measured 5 V rail, other supplies, 0, tiny, negative; a third of them on a sensor built with "
+                "0 / a placeholder; fewer calibrations there, every trailing assignment is followed by a read); "
+                "every call's result compared; forests: 2-12 units, "
                 "1-3 roots, depth <= 6, exact affine links, 5 conversions each; re-entrant definitions: 3-9 units, "
                 "~40 % of the non-root units have callables that call convert() on two earlier units (nesting "
                 "allowed), every list has a unit chained BELOW such a unit, 5 conversions each (target below / "
